@@ -66,6 +66,7 @@ int rt_ideal_readers (const void *mu) { return get (mu)->readers; }
 static void take (nsync_mu *mu, int mode) {
 	struct il *l = get (mu);
 	int t = rt_self ();
+	rt_touch (mu, 1);   /* the real lock would CAS the word here: O-mem sees a lock taken in a freed note */
 	if (!can (l, mode)) rt_violation ("O-harness", "ideal lock granted while unavailable");
 	if (mode == 1) { l->writer = 1; l->holder_w = t; } else { l->readers++; if (t >= 0) l->rheld[t]++; }
 	rt_hb_lock_acquire (mu);
@@ -74,6 +75,7 @@ static void take (nsync_mu *mu, int mode) {
 static void drop (nsync_mu *mu, int mode) {
 	struct il *l = get (mu);
 	int t = rt_self ();
+	rt_touch (mu, 1);
 	if (mode == 1) {
 		if (!l->writer || l->holder_w != t) rt_violation ("O-crash", "nsync_mu_unlock of a mutex the thread does not hold in write mode");
 		l->writer = 0; l->holder_w = -1;
@@ -91,6 +93,7 @@ void nsync_mu_rlock (nsync_mu *mu) { if (rt_self () >= 0) rt_region_begin2 (OP_L
 int nsync_mu_trylock (nsync_mu *mu) {
 	int ok;
 	rt_region_begin (OP_REGION, mu, "trylock");
+	rt_touch (mu, 1);
 	ok = can (get (mu), 1);
 	if (ok) take (mu, 1);
 	rt_region_end ();
@@ -99,6 +102,7 @@ int nsync_mu_trylock (nsync_mu *mu) {
 int nsync_mu_rtrylock (nsync_mu *mu) {
 	int ok;
 	rt_region_begin (OP_REGION, mu, "rtrylock");
+	rt_touch (mu, 1);
 	ok = can (get (mu), 2);
 	if (ok) take (mu, 2);
 	rt_region_end ();
